@@ -12,6 +12,8 @@ pub enum Source {
     Fam(Family),
     /// every member of a small family with every writer tuple
     FamAllWriters(Family),
+    /// family member k written compactly (Shannon writer, mentions only the variables a function depends on)
+    FamCompact(Family),
     /// every formula of a list as condition of statement a of a two-statement ADF
     Formulas(String, std::sync::Arc<Vec<Fm>>),
 }
@@ -37,20 +39,20 @@ pub struct Case {
 impl Source {
     pub fn name(&self) -> String {
         match self {
-            Source::Fam(f) => f.name.clone(),
+            Source::Fam(f) | Source::FamCompact(f) => f.name.clone(),
             Source::FamAllWriters(f) => format!("{} x all writer tuples", f.name),
             Source::Formulas(n, _) => n.clone(),
         }
     }
     pub fn n(&self) -> usize {
         match self {
-            Source::Fam(f) | Source::FamAllWriters(f) => f.n,
+            Source::Fam(f) | Source::FamAllWriters(f) | Source::FamCompact(f) => f.n,
             Source::Formulas(..) => 2,
         }
     }
     pub fn size(&self) -> u64 {
         match self {
-            Source::Fam(f) => f.size(),
+            Source::Fam(f) | Source::FamCompact(f) => f.size(),
             Source::FamAllWriters(f) => f.size() * (WRITERS as u64).pow(f.n as u32),
             Source::Formulas(_, l) => l.len() as u64,
         }
@@ -60,6 +62,12 @@ impl Source {
             Source::Fam(f) => {
                 let tts = f.get(k);
                 let fms = adf_fms(&tts, f.raw_index(k));
+                let text = adf_text_fm(&fms, &names(f.n));
+                Case { tts, text, fms }
+            }
+            Source::FamCompact(f) => {
+                let tts = f.get(k);
+                let fms: Vec<Fm> = tts.iter().map(|tt| write_fm(*tt, f.n, 5)).collect();
                 let text = adf_text_fm(&fms, &names(f.n));
                 Case { tts, text, fms }
             }
